@@ -4,7 +4,8 @@ Lean: Vita/C04/{Model,Lemmas,Props}.lean (find_sound, find_after_insert, load_sa
 proxy_transparent, seal-wrap theorems) for every history / index function / table size.
 Tie 1 (translator): tools/translate_cache.py regenerates Vita/C04/Gen.lean from the clang AST on every
 run — the bodies of hash_t::operator==, cache::index / cache(bits) / find / insert / clear() /
-clear(key), evaluator_proxy::operator() / clear() as terms of the language of Vita/C04/Lang.lean, and
+clear(key), save / load (stream statements, Vita/C04/IO.lean), evaluator_proxy::operator() / clear() as
+terms of the language of Vita/C04/Lang.lean, and
 the effect skeletons (Vita/C04/Sites.lean) of every validation strategy and of search::run.  Props.lean
 proves that the semantics of each generated body IS the model's function (gen_*_is_model), restates
 find_sound / find_after_insert / proxy_transparent about the generated terms, and checks the call-site
